@@ -1,4 +1,5 @@
 import Tw.Model.ServerBrowse
+import Tw.Model.ServerBrowseEnc
 import Tw.Proofs.ServerBrowseOrder
 import Tw.Proofs.ServerBrowse
 
@@ -71,8 +72,6 @@ theorem two_pow_and_one {a : Nat} (h : a ≠ 0) : 2 ^ a &&& 1 = 0 := by
   have := two_pow_and_ne (a := a) (b := 0) h
   simpa using this
 
-/-- the `received` mask of a legacy part: slots `off .. off + len - 1` -/
-def rangeMask (off len : Nat) : Nat := (2 ^ len - 1) <<< off
 
 theorem rangeMask_testBit (off len i : Nat) :
     (rangeMask off len).testBit i = (decide (off ≤ i) && decide (i < off + len)) := by
